@@ -91,6 +91,7 @@ struct Exec {
 		T.trivial       = ET::trivial;
 		T.serialization = Cfg::serialization;
 		T.tracked       = ET::tracked;
+		T.mpi           = Cfg::mpi;
 		T.pocca         = Cfg::pocca;
 		T.pocma         = Cfg::pocma;
 		T.pocs          = Cfg::pocs;
@@ -512,6 +513,8 @@ struct Exec {
 	int last_fired_kind_ = -1, last_fired_a_ = -1;
 	std::vector<char> file_bytes_[NFILE];
 	int               chunk_r_ = 0;
+	bool mpi_op(Op const& op);    // defined in mpi_ops.hpp (MPI builds only)
+	template<class V, class F> void mpi_with_message(V&& view, int var, F&& body);
 	bool ser_save(Op const& op);  // defined in ser_ops.hpp (serialization builds only)
 	bool ser_load(Op const& op);
 	std::string threw_what_;
